@@ -74,9 +74,44 @@ let rec parse_obj (t : string list) : reqs * string list =
          | "(" :: r1 -> let (body, r2) = parse_arr r1 in
            (match r2 with ")" :: r3 -> (RArr (key_of k, body), r3) | _ -> failwith ") expected")
          | _ -> failwith "( expected")
+      | ["E"] ->
+        (match rest with
+         | "(" :: r1 -> let (acts, r2) = parse_acts r1 in
+           (match r2 with ")" :: r3 -> (REach acts, r3) | _ -> failwith ") expected")
+         | _ -> failwith "( expected")
       | _ -> failwith "bad history item" in
     let (l, rest'') = parse_obj rest' in
     (RCons (r, l), rest'')
+and parse_acts (t : string list) : vacts * string list =
+  match t with
+  | [] -> (VANil, [])
+  | ")" :: _ -> (VANil, t)
+  | item :: rest ->
+    let f = split_on ':' item in
+    let (a, rest') =
+      match f with
+      | ["k"] -> (VSkip, rest)
+      | ["x"; c] -> (VThrow (SE (if c = "O" then EOverflow else EMismatch)), rest)
+      | ["g"; tg] -> (VGet (target_of tg), rest)
+      | ["b"; n] -> (VBin (nat_of_int (int_of_string n)), rest)
+      | ["o"] ->
+        (match rest with
+         | "(" :: r1 -> let (body, r2) = parse_obj r1 in
+           (match r2 with ")" :: r3 -> (VObj body, r3) | _ -> failwith ") expected")
+         | _ -> failwith "( expected")
+      | ["a"] ->
+        (match rest with
+         | "(" :: r1 -> let (body, r2) = parse_arr r1 in
+           (match r2 with ")" :: r3 -> (VArr body, r3) | _ -> failwith ") expected")
+         | _ -> failwith "( expected")
+      | ["c"; n] ->
+        (match rest with
+         | "(" :: r1 -> let (body, r2) = parse_arr r1 in
+           (match r2 with ")" :: r3 -> (VBinArr (nat_of_int (int_of_string n), body), r3) | _ -> failwith ") expected")
+         | _ -> failwith "( expected")
+      | _ -> failwith "bad callback action" in
+    let (l, rest'') = parse_acts rest' in
+    (VACons (a, l), rest'')
 and parse_arr (t : string list) : areqs * string list =
   match t with
   | [] -> (ANil, [])
